@@ -1,82 +1,67 @@
-(* ChronoRefute.v — witnesses (evaluated by the kernel) of the inputs on which the faithful model
-   violates the full-strength statements of C14 / C15. *)
+(* ChronoRefute.v — kernel-evaluated witnesses: the input classes on which the faithful model still
+   violates the full-strength statements of C14 / C15 (K35, K41, K42, K45, K48), and regression
+   examples of the defects repaired in /repo (60cbc0d 30f5d3e 302fac1 5f3f75a d4af9ec beee810 0e78f9f). *)
 From BS Require Import Base ChronoSpec ChronoModel ChronoArith ChronoDecimal ChronoSafe ChronoSafeAdd ChronoText ChronoTp.
 Local Open Scope Z_scope.
 
-(* F30: first partial day of the nanosecond range — printing runs into signed overflow *)
-Lemma w_F30_print : tp_print Pns I64 (-9223372036854775808) = UB UBOverflow.
+(* ---------- still open ---------- *)
+
+(* K35: the last 719468 values of time_point<days,int64>: days + 719468 overflows *)
+Lemma w_K35 : tp_print Pd I64 9223372036854775807 = UB UBOverflow /\ tp_print Pd I64 9223372036854056340 = UB UBOverflow /\
+  tp_print Pd I64 9223372036854056339 = Ok [43;50;53;50;53;50;55;51;52;57;50;55;55;54;54;53;53;52;45;48;57;45;50;53;84;48;48;58;48;48;58;48;48;90]%N.
+Proof. repeat split; vm_compute; reflexivity. Qed.
+
+(* K41 / K42: lenient acceptance outside the documented grammar *)
+Definition text_K41 : list N := (* "2023-1-1T0:0:0Zjunk" *) [50;48;50;51;45;49;45;49;84;48;58;48;58;48;90;106;117;110;107]%N.
+Lemma w_K41 : tp_parse Ps I64 text_K41 = Ok 1672531200.
 Proof. vm_compute. reflexivity. Qed.
-(* the parse half of F30: a text of the grammar whose instant is representable is reported out of range *)
-Definition text_F30 : list N := (* "1677-09-21T00:12:43.145224192Z" *)
-  [49;54;55;55;45;48;57;45;50;49;84;48;48;58;49;50;58;52;51;46;49;52;53;50;50;52;49;57;50;90]%N.
-Lemma w_F30_parse : tp_parse Pns I64 text_F30 = Err OutOfRange.
+Definition text_K42 : list N := (* "PT1S1H junk" *) [80;84;49;83;49;72;32;106;117;110;107]%N.
+Lemma w_K42 : dur_parse Ps I64 text_K42 = Ok 3601.
 Proof. vm_compute. reflexivity. Qed.
 
-(* F31: year -1 printed with three digits *)
-Lemma w_F31 : tp_print Ps I64 (-62198755200) = Ok [45;48;48;49;45;48;49;45;48;49;84;48;48;58;48;48;58;48;48;90]%N
-  /\ iso_text Ps (spec_datetime Ps (-62198755200)) = [45;48;48;48;49;45;48;49;45;48;49;84;48;48;58;48;48;58;48;48;90]%N.
+(* K45: the general-ratio branch of SafeDurationCast returns 0 for a count that is not representable *)
+Lemma w_K45 : safe_cast (mkD I64 2 3) (mkD I64 1 1) 1 = Ok 0.
+Proof. vm_compute. reflexivity. Qed.
+
+(* K48: 8-bit representations wrap inside std::chrono::round / floor *)
+Definition text_K48 : list N := (* "PT0.2S" *) [80;84;48;46;50;83]%N.
+Lemma w_K48 : dur_parse Pms I8 text_K48 = Ok (-55) /\ ts_from_dur Pms I8 0 127000000 = Ok (-128).
 Proof. split; vm_compute; reflexivity. Qed.
 
-(* BUF: 16-digit years — internal error exception, 17-digit years — write past the 32-byte buffer *)
-Lemma w_BUF_exc : tp_print Ph I64 9223372036854775807 = Err RuntimeError.
-Proof. vm_compute. reflexivity. Qed.
-Lemma w_BUF_ub : tp_print Pd I64 9223372036854000000 = UB UBBuffer.
-Proof. vm_compute. reflexivity. Qed.
-Lemma w_days_overflow : tp_print Pd I64 9223372036854775807 = UB UBOverflow.
-Proof. vm_compute. reflexivity. Qed.
+(* ---------- repaired (regression examples) ---------- *)
 
-(* F34: 2023-02-29 accepted and normalised to 2023-03-01 *)
-Definition text_F34 : list N := (* "2023-02-29T00:00:00Z" *)
-  [50;48;50;51;45;48;50;45;50;57;84;48;48;58;48;48;58;48;48;90]%N.
-Lemma w_F34 : tp_parse Ps I64 text_F34 = Ok 1677628800 /\ valid_dateb (2023, 2, 29) = false.
+Definition text_F30 : list N := (* "1677-09-21T00:12:43.145224192Z" *) [49;54;55;55;45;48;57;45;50;49;84;48;48;58;49;50;58;52;51;46;49;52;53;50;50;52;49;57;50;90]%N.
+Lemma r_F30 : tp_print Pns I64 (-9223372036854775808) = Ok text_F30 /\ tp_parse Pns I64 text_F30 = Ok (-9223372036854775808).
 Proof. split; vm_compute; reflexivity. Qed.
 
-(* N1: negative seconds into an unsigned coarser duration come back as a huge positive value *)
-Lemma w_N1 : safe_cast SecT (mkD U64 60 1) (-16) = Ok 307445734561825860.
-Proof. vm_compute. reflexivity. Qed.
-(* N2: uint64 count above INT64_MAX into a signed coarser duration: signed overflow in the check *)
-Lemma w_N2 : safe_cast (mkD U64 1 1) (mkD I64 60 1) 18446744073709551600 = UB UBOverflow.
-Proof. vm_compute. reflexivity. Qed.
-(* N3: general-ratio branch returns 0 for a count that is not representable *)
-Lemma w_N3 : safe_cast (mkD I64 2 3) (mkD I64 1 1) 1 = Ok 0.
+Lemma r_F31 : tp_print Ps I64 (-62198755200) = Ok [45;48;48;48;49;45;48;49;45;48;49;84;48;48;58;48;48;58;48;48;90]%N.
 Proof. vm_compute. reflexivity. Qed.
 
-(* N4: years of the five lowest eras: era * 146097 + (doe - 719468) overflows *)
-Definition text_N4 : list N := (* "-25252734927766399-03-01T00:00:00Z" *)
-  [45;50;53;50;53;50;55;51;52;57;50;55;55;54;54;51;57;57;45;48;51;45;48;49;84;48;48;58;48;48;58;48;48;90]%N.
-Lemma w_N4 : tp_parse Pd I64 text_N4 = UB UBOverflow.
-Proof. vm_compute. reflexivity. Qed.
-(* year INT64_MIN with month <= 2: Year - 1 overflows *)
-Definition text_N4b : list N := (* "-9223372036854775808-01-01T00:00:00Z" *)
-  [45;57;50;50;51;51;55;50;48;51;54;56;53;52;55;55;53;56;48;56;45;48;49;45;48;49;84;48;48;58;48;48;58;48;48;90]%N.
-Lemma w_N4b : tp_parse Ps I64 text_N4b = UB UBOverflow.
+Lemma r_BUF : tp_print Ph I64 9223372036854775807 = Ok [43;49;48;53;50;49;57;55;50;56;56;54;53;56;57;48;57;45;49;48;45;49;48;84;48;55;58;48;48;58;48;48;90]%N /\
+  tp_print Pd I64 9223372036854000000 = Ok [43;50;53;50;53;50;55;51;52;57;50;55;55;54;54;52;48;48;45;48;54;45;50;53;84;48;48;58;48;48;58;48;48;90]%N.
+Proof. split; vm_compute; reflexivity. Qed.
+
+Definition text_F34 : list N := (* "2023-02-29T00:00:00Z" *) [50;48;50;51;45;48;50;45;50;57;84;48;48;58;48;48;58;48;48;90]%N.
+Definition text_F34b : list N := (* "2024-02-29T00:00:00Z" *) [50;48;50;52;45;48;50;45;50;57;84;48;48;58;48;48;58;48;48;90]%N.
+Lemma r_F34 : tp_parse Ps I64 text_F34 = Err InvalidArgument /\ tp_parse Ps I64 text_F34b = Ok 1709164800.
+Proof. split; vm_compute; reflexivity. Qed.
+
+Lemma r_N1N2 : safe_cast SecT (mkD U64 60 1) (-16) = Err OutOfRange /\
+  safe_cast (mkD U64 1 1) (mkD I64 60 1) 18446744073709551600 = Ok 307445734561825860.
+Proof. split; vm_compute; reflexivity. Qed.
+
+Definition text_N4 : list N := (* "-25252734927766399-03-01T00:00:00Z" *) [45;50;53;50;53;50;55;51;52;57;50;55;55;54;54;51;57;57;45;48;51;45;48;49;84;48;48;58;48;48;58;48;48;90]%N.
+Definition text_N4b : list N := (* "-9223372036854775808-01-01T00:00:00Z" *) [45;57;50;50;51;51;55;50;48;51;54;56;53;52;55;55;53;56;48;56;45;48;49;45;48;49;84;48;48;58;48;48;58;48;48;90]%N.
+Lemma r_N4 : tp_parse Pd I64 text_N4 = Err OutOfRange /\ tp_parse Ps I64 text_N4b = Err OutOfRange.
+Proof. split; vm_compute; reflexivity. Qed.
+
+Definition text_N5 : list N := (* "-P9223372036854775808D" *) [45;80;57;50;50;51;51;55;50;48;51;54;56;53;52;55;55;53;56;48;56;68]%N.
+Lemma r_N5 : dur_parse Pd I64 text_N5 = Ok (-9223372036854775808).
 Proof. vm_compute. reflexivity. Qed.
 
-(* N5: "-P9223372036854775808D": -static_cast<int64_t>(2^63) *)
-Definition text_N5 : list N := (* "-P9223372036854775808D" *)
-  [45;80;57;50;50;51;51;55;50;48;51;54;56;53;52;55;55;53;56;48;56;68]%N.
-Lemma w_N5 : dur_parse Pd I64 text_N5 = UB UBOverflow.
+Lemma r_N6 : dur_print Pd I32 (-2147483648) = Ok [45;80;50;49;52;55;52;56;51;54;52;56;68]%N.
 Proof. vm_compute. reflexivity. Qed.
 
-(* N6: duration<int32_t, days>(INT32_MIN): std::abs(INT_MIN) *)
-Lemma w_N6 : dur_print Pd I32 (-2147483648) = UB UBOverflow.
-Proof. vm_compute. reflexivity. Qed.
-
-(* N7: 8-bit representations: chrono::round / floor wrap *)
-Definition text_N7 : list N := (* "PT0.2S" *) [80;84;48;46;50;83]%N.
-Lemma w_N7 : dur_parse Pms I8 text_N7 = Ok (-55).
-Proof. vm_compute. reflexivity. Qed.
-Lemma w_N7b : ts_from_dur Pms I8 0 127000000 = Ok (-128).
-Proof. vm_compute. reflexivity. Qed.
-(* 32-bit sub-second time points before the epoch print a wrong time of day *)
-Lemma w_N8 : tp_print Pus I32 (-1) = Ok [49;57;54;57;45;49;50;45;51;49;84;48;48;58;48;56;58;50;48;46;54;53;52;48;55;57;90]%N.
-Proof. vm_compute. reflexivity. Qed.
-
-(* lenient acceptance outside the documented grammar *)
-Definition text_L1 : list N := (* "2023-1-1T0:0:0Zjunk" *)
-  [50;48;50;51;45;49;45;49;84;48;58;48;58;48;90;106;117;110;107]%N.
-Lemma w_L1 : tp_parse Ps I64 text_L1 = Ok 1672531200.
-Proof. vm_compute. reflexivity. Qed.
-Definition text_L2 : list N := (* "PT1S1H junk" *) [80;84;49;83;49;72;32;106;117;110;107]%N.
-Lemma w_L2 : dur_parse Ps I64 text_L2 = Ok 3601.
-Proof. vm_compute. reflexivity. Qed.
+(* time of day of narrow representations (was wrapped before d4af9ec) *)
+Lemma r_narrow : tp_print Pus I32 (-1) = Ok [49;57;54;57;45;49;50;45;51;49;84;50;51;58;53;57;58;53;57;46;57;57;57;57;57;57;90]%N /\ tp_print Pms I8 (-5) = Ok [49;57;54;57;45;49;50;45;51;49;84;50;51;58;53;57;58;53;57;46;57;57;53;90]%N.
+Proof. split; vm_compute; reflexivity. Qed.
